@@ -64,7 +64,7 @@ ASSUMPTIONS = [
 ROUTES = ['wsgi', 'sb']
 METHODS = ['prims', 'echo', 'inners', 'strict']
 KINDS = ['bitflip', 'drop', 'dup', 'swap', 'zero', 'insert', 'trailing',
-         'random', 'empty', 'splice', 'splice', 'truncate']
+         'random', 'empty', 'splice', 'splice', 'lose_block', 'truncate']
 
 # Burst damage inside a leaf value: what a value span looks like after a
 # multi-byte burst error / a torn write / a buffer re-use.  (The span keeps
@@ -127,6 +127,13 @@ def gen_cases(tier, verif_seed):
 def _target(uni, in_prot, method, ws):
     args = uni.gen_args(ws, method)
     req = encode_request(uni, in_prot, method, args)
+    if in_prot in SOAP_FAMILY and ws.random() < .5:
+        # valid traffic often carries a (here: empty) SOAP Header
+        marker = b'Body>'
+        k = req.body.find(b'<', req.body.find(b'Envelope'))
+        pfx = req.body[k + 1:req.body.find(b':', k)]
+        req = req.with_body(req.body[:k] + b'<' + pfx + b':Header/>' +
+                            req.body[k:])
     if PROTOCOLS[in_prot][1] == 'flat':
         data = req.qs.encode('latin1')
     else:
@@ -150,6 +157,27 @@ def _spans(data):
     if start is not None:
         spans.append((start, len(data)))
     return spans
+
+
+def _blocks(data):
+    """Byte ranges of balanced XML elements (start tag .. matching end tag,
+    or a self-closing tag) -- the unit a block-aligned loss removes."""
+    import re
+    out = []
+    stack = []
+    for m in re.finditer(rb'<(/?)([A-Za-z_][\w.:-]*)[^<>]*?(/?)>', data):
+        closing, name, selfclose = m.group(1), m.group(2), m.group(3)
+        if selfclose:
+            out.append((m.start(), m.end()))
+        elif closing:
+            while stack:
+                n, st = stack.pop()
+                if n == name:
+                    out.append((st, m.end()))
+                    break
+        else:
+            stack.append((name, m.start()))
+    return [b for b in out if b[0] > 0]
 
 
 def _draw_ops(case, data, rng):
@@ -190,6 +218,15 @@ def _draw_ops(case, data, rng):
         elif kind == 'splice':
             a, b = rng.choice(spans)
             ops.append(['splice', a, b, rng.randrange(len(SPLICE_TOKENS))])
+        elif kind == 'lose_block':
+            # a lost block whose boundaries coincide with markup boundaries
+            # (one whole element / one whole member)
+            blocks = _blocks(data)
+            if blocks:
+                a, b = rng.choice(blocks)
+                ops.append(['drop', a, b - a])
+            else:
+                ops.append(['drop', pos, rng.randint(3, 30)])
         elif kind == 'random':
             ops.append(['random', base64.b16encode(bytes(bytearray(
                 rng.randint(0, 255) for _ in range(rng.randint(1, 40)))))
